@@ -22,6 +22,12 @@ PASS_THROUGH = re.compile(
     r"|<.* as alloc::borrow::ToOwned>::to_owned|alloc::borrow::ToOwned::to_owned"
     r"|alloc::vec::Vec::as_slice|alloc::string::String::as_str|alloc::boxed::Box::new"
     r"|core::mem::replace|core::mem::take"
+    r"|core::(result::Result|option::Option)::(unwrap|expect|unwrap_or_default|unwrap_unchecked)"
+    r")$")
+
+# calls whose result is *derived from* their first argument (closure-transformed); followed only by deep origin queries
+DERIVED_THROUGH = re.compile(
+    r"^(core::(result::Result|option::Option)::(map|and_then|map_or|map_or_else|unwrap_or|unwrap_or_else|filter|or|or_else|ok_or|ok_or_else)"
     r")$")
 
 TRY_BRANCH = re.compile(r"core::ops::try_trait::Try(>)?::branch$")
@@ -174,7 +180,7 @@ class Body:
             self._defs = d
         return self._defs.get(local, [])
 
-    def origins(self, op, max_nodes=400):
+    def origins(self, op, max_nodes=400, deep=False):
         """flow-insensitive backward origin atoms of an operand ['c'|'m', place] / ['k', const]
         or a bare place list."""
         out = {}
@@ -247,6 +253,9 @@ class Body:
                                 idx = rv["fields"].index(fname)
                                 if idx < len(rv["ops"]):
                                     push_op(rv["ops"][idx], rest2)
+                        elif deep and not rest:
+                            for o2 in rv["ops"]:
+                                push_op(o2, ())
                         elif rest and rv.get("ak") == "tuple" and rest[0].startswith("."):
                             try:
                                 idx = int(rest[0][1:])
@@ -272,7 +281,8 @@ class Body:
                     t = s
                     a = Atom("call", t["f"], bb, proj, t)
                     out[a.key()] = a
-                    if (PASS_THROUGH.match(t["f"]) or PASS_THROUGH.match(t["fd"])) and t["args"]:
+                    if t["args"] and (PASS_THROUGH.match(t["f"]) or PASS_THROUGH.match(t["fd"])
+                                      or (deep and DERIVED_THROUGH.match(t["f"]))):
                         # strip variant/field projections that belong to the wrapper (Continue/Break/Some/Ok…)
                         rest = tuple(x for x in proj if not x.startswith("@") and x not in (".0",))
                         push_op(t["args"][0], rest)
